@@ -23,6 +23,7 @@ type Registry struct {
 	moqPkgPath  string
 	aliases     map[string]string
 	imports     map[string]*Package
+	scopes      []*MethodScope
 }
 
 // New loads the source package info and returns a new instance of
@@ -77,12 +78,33 @@ func (r Registry) LookupInterface(name string) (*types.Interface, *types.TypePar
 	return obj.Type().Underlying().(*types.Interface).Complete(), tparams, nil
 }
 
-// MethodScope returns a new MethodScope.
-func (r *Registry) MethodScope() *MethodScope {
+// MethodScope returns a new MethodScope. The names reserved are
+// identifiers the method must still be able to refer to besides the
+// ones its signature and body mention (the type parameters of the mock).
+func (r *Registry) MethodScope(reserved ...string) *MethodScope {
+	scope := r.TypeParamScope()
+	scope.reserved = reserved
+	r.scopes = append(r.scopes, scope)
+	return scope
+}
+
+// TypeParamScope returns a scope for the type parameters of a mock.
+func (r *Registry) TypeParamScope() *MethodScope {
 	return &MethodScope{
 		registry:   r,
 		moqPkgPath: r.moqPkgPath,
 		conflicted: map[string]bool{},
+	}
+}
+
+// ResolveShadowing renames the variables of all method scopes which
+// would hide an identifier their method refers to. It has to be called
+// once all imports are registered, because resolving a conflict between
+// imports can rename a package qualifier after the variables of earlier
+// methods were named.
+func (r *Registry) ResolveShadowing() {
+	for _, scope := range r.scopes {
+		scope.resolveShadowing()
 	}
 }
 
